@@ -721,7 +721,12 @@ int main(int argc, char **argv)
       vrng r; long i, n = atol(argv[3]);
       r.s = strtoull(argv[2], 0, 10) ^ 0xC0DEC15ULL; r.s = vnext(&r) + 1500;   /* mixed: consecutive seeds give unrelated streams */
       g_nperturb = atoi(argv[4]);
-      for (i = 0; i < n; i++) run_cfg(vnext(&r), atoi(argv[5]));
+      for (i = 0; i < n; i++) {
+         uint64_t sub = vnext(&r);
+         /* named before it runs, so that a trap (sanitizer, OPUS_CHECK_ASM self-check assert) can be replayed alone */
+         printf("# running cfg %llu\n", (unsigned long long)sub); fflush(stdout);
+         run_cfg(sub, atoi(argv[5]));
+      }
    } else if (argc >= 5 && !strcmp(argv[1], "cfg")) {
       g_nperturb = atoi(argv[3]); g_print_cfg = 1;
       run_cfg(strtoull(argv[2], 0, 10), atoi(argv[4]));
